@@ -26,8 +26,8 @@ CLAIMS = {
    note="That the kernel applies the mask, thread spawning, and the thread-local storage of the pin status (isolation between threads and hardware instances) are outside any contract; SmallVec->Vec rewrite (R4); itertools unique().count() replaced by an assumed shim."),
  "C11": dict(level="proof", design="DESIGN.md §3 C11",
    technique="contract-based deductive verification: Verus on emit() arithmetic regions and CpuMask; Kani on mask equality and the extracted quota min",
-   text="Partial: cpulist::emit's grouping step and range arithmetic never panic and describe exactly the run, including runs ending at u32::MAX (found and fixed: a 3+ run ending at u32::MAX panicked); masks are sets independent of width; processor-time quota = min(count, cgroup quota) for all f64.",
-   note="Text parsing/formatting (/proc, sysfs, cgroup files, parse()) is out of reach: Verus has no str reasoning, Kani is intractable on it."),
+   text="Partial: cpulist::emit's grouping step and range arithmetic never panic and describe exactly the run, including runs ending at u32::MAX (found and fixed: a 3+ run ending at u32::MAX panicked); masks are sets independent of width; processor-time quota = min(reported count, cgroup quota) for all f64; the NUMA-node join (every possible node that lists processors is reported with its list, nodes without members are skipped) over stand-ins at small concrete sizes.",
+   note="Text parsing/formatting (/proc/cpuinfo, sysfs online flags, cgroup files, cpulist::parse) is out of reach: Verus has no str reasoning, Kani is intractable on it; the node join and the quota use stand-ins for those sources."),
 }
 
 NA = {
